@@ -227,6 +227,25 @@ func registerVerifrt(m map[string]modelFn) {
 	m["verifrt.Sched"] = func(fr *frame, a []Value) Value { fr.e.schedMode = int(fr.e.concInt(a[0])); return nil }
 	m["verifrt.MapOrder"] = func(fr *frame, a []Value) Value { fr.e.mapOrderPerm = fr.e.concInt(a[0]) != 0; return nil }
 	m["verifrt.Yield"] = func(fr *frame, a []Value) Value { fr.e.yield(); return nil }
+	// Quiesce: let every other goroutine run until it is blocked or finished
+	m["verifrt.Quiesce"] = func(fr *frame, a []Value) Value {
+		e := fr.e
+		for i := 0; i < 10000; i++ {
+			any := false
+			for _, o := range e.runq {
+				if !o.finished && o != e.cur && (o.ready == nil || o.ready()) {
+					any = true
+					break
+				}
+			}
+			if !any {
+				return nil
+			}
+			e.yield()
+		}
+		e.abort("bound", "Quiesce: other goroutines never block")
+		return nil
+	}
 	m["verifrt.Note"] = func(fr *frame, a []Value) Value {
 		s, _ := a[0].(Str).Concrete()
 		fr.e.Assumptions[s] = true
